@@ -770,7 +770,7 @@ class FetchAtt:
                 "latin-1", "replace"
             )
             if not self.ext_data:
-                res = b"(" + b"".join(sub_parts) + subtype + b")"
+                res = b"(" + b"".join(sub_parts) + b" " + subtype + b")"
                 return res
 
             # Get the extension data and add it to our response.
